@@ -163,6 +163,22 @@ func genC01(seed uint64, tier string) *plan.Plan {
 		// the session of the exporter under test, in the same process, must be untouched by it.
 		pl.Cfg["foreign"] = int64(1 + r.IntN(3))
 	}
+	if hugeTTL && tr == 1 {
+		// An exporter that falls silent for longer than the collector keeps a UDP peer's handler
+		// (entities.TemplateTTL = 1800 s without a datagram; the refresh interval is set beyond the
+		// gaps), then goes on: the templates are still in force (lifetime of weeks), so everything
+		// sent after the gap has to be delivered like everything before it. The gaps end at least a
+		// minute after the handler's timeout, never at that instant. A stream of its own keeps older plans.
+		r2 := rand.New(rand.NewPCG(seed, 0xc01d))
+		if r2.IntN(2) == 0 && len(pl.Ops) > 1 {
+			pl.Cfg["refresh"] = 86400
+			for k := 1 + r2.IntN(2); k > 0; k-- {
+				at := 1 + r2.IntN(len(pl.Ops))
+				gap := plan.Op{K: "adv", T: pl.Ops[at-1].T, A: int64(1860+r2.IntN(6000)) * int64(time.Second)}
+				pl.Ops = append(pl.Ops[:at], append([]plan.Op{gap}, pl.Ops[at:]...)...)
+			}
+		}
+	}
 	genSchedule(r, pl, 2, 5000)
 	return pl
 }
